@@ -699,7 +699,7 @@ structure PartOK (ib : Bytes) (p : EPart) : Prop where
   bytes : ∀ t ∈ hdrTexts p, CR ∉ utf8enc t ∧ LF ∉ utf8enc t
   chars : '\n' ∉ dispValue p ∧ '\r' ∉ dispValue p
   ctype : ∀ t, p.ctype = some t → Poor.Props.C18.MainOK t ∧ '\n' ∉ t ∧ '\r' ∉ t ∧
-            t.take 10 ≠ "multipart/".toList ∧ t ≠ "application/x-www-form-urlencoded".toList
+            t.take 10 ≠ "multipart/".toList
 
 theorem keyOK_name : Poor.Props.C18.KeyOK "name".toList := by
   refine ⟨by decide, by decide⟩
@@ -791,7 +791,7 @@ theorem parse_disp_line (p : EPart) (ib : Bytes) (hp : PartOK ib p) :
 theorem parse_ctype_line (p : EPart) (ib : Bytes) (hp : PartOK ib p) (t : Str) (ht : p.ctype = some t) :
     parseHeaderLine (utf8enc ("Content-Type".toList ++ ": ".toList ++ t) ++ [CR, LF])
       = some (some ("content-type".toList, t)) := by
-  obtain ⟨hm, hn1, hn2, _, _⟩ := hp.ctype t ht
+  obtain ⟨hm, hn1, hn2, _⟩ := hp.ctype t ht
   obtain ⟨c, r, hcr⟩ : ∃ c r, t = c :: r := by
     cases hc : t with
     | nil => exact absurd hc hm.1
@@ -878,11 +878,7 @@ theorem readParts_step (ib : Bytes) (hb : BOk (DASH :: DASH :: ib)) (p : EPart) 
   have hmp : ¬ (p.ctype.getD "text/plain".toList).take 10 = "multipart/".toList := by
     cases hc : p.ctype with
     | none => decide
-    | some t => simpa using (hp.ctype t hc).2.2.2.1
-  have hue : ¬ p.ctype.getD "text/plain".toList = "application/x-www-form-urlencoded".toList := by
-    cases hc : p.ctype with
-    | none => decide
-    | some t => simpa using (hp.ctype t hc).2.2.2.2
+    | some t => simpa using (hp.ctype t hc).2.2.2
   have hname : dictGet (dispParams p) "name" = some p.name := by
     unfold dictGet dispParams; simp [List.find?]
   have hfile : dictGet (dispParams p) "filename" = p.filename := by
@@ -890,7 +886,7 @@ theorem readParts_step (ib : Bytes) (hb : BOk (DASH :: DASH :: ib)) (p : EPart) 
     have : ("name".toList == "filename".toList) = false := by decide
     cases p.filename <;> simp [List.find?, this]
   simp only [readParts, hl1, hl2, hl3, Bool.false_eq_true, if_false, filterMap_pairs, partParams_pairs,
-    partCtype_pairs ib p hp, hmp, hue, hname, hfile, hnb, hbody]
+    partCtype_pairs ib p hp, hmp, hname, hfile, hnb, hbody]
   rcases hmark with rfl | rfl
   · simp only [if_true]
     cases readParts lfReader ib fuel tail <;> rfl
